@@ -596,15 +596,32 @@ def impl_export(g):
         try:
             g.to_g2o(p)
         except Exception as ex:  # noqa
-            return ('raise', type(ex).__name__, str(ex))
+            left = None
+            if os.path.exists(p):
+                with open(p, newline='') as f:
+                    left = f.read()
+            return ('raise', type(ex).__name__, str(ex), left)
         with open(p, newline='') as f:
             return ('ok', f.read())
     finally:
         shutil.rmtree(d, ignore_errors=True)
 
 
-def compare_export(chunk, atoms, impl, stats):
+def compare_export(chunk, atoms, impl, stats, fchunk=None):
     """chunk: ints from the model.  Returns None or a description of the disagreement."""
+    if chunk[0] == 0 and fchunk is not None and impl[0] == 'raise':
+        # what the refused call left on disk
+        if fchunk[0] == 0:
+            stats['refused_file_untouched'] = stats.get('refused_file_untouched', 0) + 1
+            if impl[3] is not None:
+                return 'model: the refused export does not open the file; implementation left %d bytes' % len(impl[3])
+        else:
+            stats['refused_partial_file'] = stats.get('refused_partial_file', 0) + 1
+            if impl[3] is None:
+                return 'model: the refused export leaves a partial file; implementation left none'
+            why = compare_export(fchunk, atoms, ('ok', impl[3]), {})
+            if why:
+                return 'partial file left by the refused export: ' + why
     if chunk[0] == 0:
         want = ERR[chunk[1]]
         stats['raise_' + want] = stats.get('raise_' + want, 0) + 1
@@ -666,6 +683,11 @@ def run_export(rng, n, prefix):
         s, atoms, expr = export_case_expr(g)
         cases.append((g, s, atoms, expr))
     exprs = [c[3] for c in cases]
+    fidx = {}
+    for k, (g, s, atoms, expr) in enumerate(cases):
+        if py_refusal(s) is not None:
+            fidx[k] = len(exprs)
+            exprs.append(expr.replace('dump_export (sexport ', 'dump_export_file (sexport_file ', 1))
     cidx = {}
     for k, (g, s, atoms, expr) in enumerate(cases):
         if py_refusal(s) is None and canon_applicable(s):
@@ -681,7 +703,7 @@ def run_export(rng, n, prefix):
         ch = chunks[k]
         if ch is None:
             continue
-        why = compare_export(ch, atoms, impl_export(g), stats)
+        why = compare_export(ch, atoms, impl_export(g), stats, chunks[fidx[k]] if k in fidx else None)
         if not why and k in cidx and chunks[cidx[k]] is not None and chunks[cidx[k] + 1] is not None:
             try:
                 g1 = cycle(build_graph(s))
@@ -700,7 +722,7 @@ def run_export(rng, n, prefix):
             dis.append({'side': 'export', 'why': why, 'graph': snap_json(s)})
         else:
             agree += 1
-    return {'evaluations': len(cases) + 2 * len(cidx), 'agree': agree + (0 if dis else 2 * len(cidx)), 'disagreements': dis,
+    return {'evaluations': len(cases) + 2 * len(cidx) + len(fidx), 'agree': agree + (0 if dis else 2 * len(cidx) + len(fidx)), 'disagreements': dis,
             'coq_errors': errs, 'stats': stats, 'hist': {}}
 
 
